@@ -127,11 +127,23 @@ def table():
     if _table is None:
         with open(TABLE_FILE) as f:
             _table = json.load(f)
+        _table["_one_line_set"] = set(_table.get("one_line_gaps", []))
     return _table
 
 
 def modes(key):
     return set(table()["gaps"].get(key, []))
+
+
+def one_line(key):
+    """does the comment stand between two tokens that the pinned formatter prints on one line?"""
+    return "|".join(key.split("|")[:3]) in table()["_one_line_set"]
+
+
+def carries_break(key):
+    """a line comment, or a block comment with a line break before or after it"""
+    form = key.split("|")[3]
+    return form[0] == "L" or form[1:] != "11"
 
 
 # ---- derivation --------------------------------------------------------------------------------
@@ -350,7 +362,59 @@ def _derive(nprog, nprog2=0):
     return gaps, seen, nrun
 
 
+def _derive_lines(nprog):
+    """the gaps (ctx|prev|next) that the formatter prints on one line, read off comment-free
+    programs: the systematic templates and nprog random ones"""
+    import random
+    sys.path.insert(0, os.path.dirname(os.path.abspath(__file__)))
+    sys.path.insert(0, os.path.join(os.path.dirname(os.path.abspath(__file__)), "props"))
+    import c20gen
+    import c20lib
+    import c20 as P
+    ok, binp = c20lib.build()
+    assert ok, binp
+    rng = random.Random(20261002)
+    bases = templates()
+    for pi in range(nprog):
+        opts = {"percent": False, "f10": False, "emptydoc": True, "svc_comment": True, "multi_indent": False,
+                "empty_after_import": True, "maxstmts": rng.choice([2, 4, 7, 9]), "glue": False}
+        g = c20gen.Gen(rng, opts)
+        d = c20gen.Deco(rng, odd=rng.choice([0.0, 0.2]), pc=0.0, percent=False, inline=0, f10=False, glue=False)
+        bases.append(d.render(g.program()))
+    res = []
+    for i in range(0, len(bases), 1000):
+        rc, out, r = c20lib.run(binp, [{"src": t} for t in bases[i:i + 1000]])
+        assert rc == 0, out[-500:]
+        res += r
+    one, broken = set(), set()
+    for o in res:
+        if o["pout"] != "ok" or not P.C20._main_ok(o) or o["cmts"]:
+            continue
+        ft = o["ftoks"]
+        classes, ctx_after = classify(ft)
+        for i in range(len(ft) - 1):
+            k = "%s|%s|%s" % (ctx_after[i], classes[i], classes[i + 1])
+            (one if ft[i + 1][2] == 0 else broken).add(k)
+    return sorted(one), sorted(one & broken), len(res)
+
+
 def main():
+    if len(sys.argv) >= 2 and sys.argv[1] == "derive-lines":
+        import subprocess
+        n = int(sys.argv[2]) if len(sys.argv) > 2 else 1500
+        one, both, nrun = _derive_lines(n)
+        commit = subprocess.run(["git", "-C", os.environ.get("VERIF_REPO", "/repo"), "rev-parse", "HEAD"],
+                                stdout=subprocess.PIPE, text=True).stdout.strip()
+        t = json.load(open(TABLE_FILE))
+        t["one_line_gaps"] = one
+        t["one_line_gaps_also_seen_broken"] = both
+        t["derived_from"]["one_line_gaps"] = {"repo_commit": commit, "programs": nrun,
+                                              "how": "python3 tools/c20gaps.py derive-lines %d" % n}
+        with open(TABLE_FILE, "w") as f:
+            json.dump(t, f, indent=1, sort_keys=True)
+            f.write("\n")
+        print("%d one-line gaps (%d of them also seen with a line break)" % (len(one), len(both)))
+        return 0
     if len(sys.argv) >= 2 and sys.argv[1] == "derive":
         import subprocess
         n = int(sys.argv[2]) if len(sys.argv) > 2 else 300
@@ -358,7 +422,10 @@ def main():
         gaps, seen, nrun = _derive(n, n2)
         commit = subprocess.run(["git", "-C", os.environ.get("VERIF_REPO", "/repo"), "rev-parse", "HEAD"],
                                 stdout=subprocess.PIPE, text=True).stdout.strip()
-        out = {"derived_from": {"repo_commit": commit, "programs": n, "commented_programs": n2, "executions": nrun,
+        old = json.load(open(TABLE_FILE)) if os.path.exists(TABLE_FILE) else {}
+        out = {"one_line_gaps": old.get("one_line_gaps", []),
+               "one_line_gaps_also_seen_broken": old.get("one_line_gaps_also_seen_broken", []),
+               "derived_from": {"one_line_gaps": old.get("derived_from", {}).get("one_line_gaps"), "repo_commit": commit, "programs": n, "commented_programs": n2, "executions": nrun,
                                 "how": "python3 tools/c20gaps.py derive %d %d" % (n, n2)},
                "gaps": {k: sorted(v) for k, v in sorted(gaps.items())},
                "gaps_seen_without_failure": sorted(k for k in seen if k not in gaps)}
